@@ -12,6 +12,7 @@ pub mod c11;
 pub mod c12;
 pub mod front;
 pub mod c13;
+pub mod c14;
 pub mod c15;
 pub mod c16;
 pub mod c17;
@@ -70,6 +71,7 @@ pub fn run(id: &str, tier: Tier, seed: u64) -> Option<Report> {
         "C11" => c11::run(tier, seed),
         "C12" => c12::run(tier, seed),
         "C13" => c13::run(tier, seed),
+        "C14" => c14::run(tier, seed),
         "C15" => c15::run(tier, seed),
         "C16" => c16::run(tier, seed),
         "C17" => c17::run(tier, seed),
@@ -95,6 +97,7 @@ pub fn replay(id: &str, phase: &str, tape: &[u16], seed: u64) -> Option<Report> 
         "C11" => c11::replay(phase, tape, seed),
         "C12" => c12::replay(phase, tape, seed),
         "C13" => c13::replay(phase, tape, seed),
+        "C14" => c14::replay(phase, tape, seed),
         "C15" => c15::replay(phase, tape, seed),
         "C16" => c16::replay(phase, tape, seed),
         "C17" => c17::replay(phase, tape, seed),
